@@ -4,6 +4,8 @@ package main
 
 import (
 	"fmt"
+	"os"
+	"runtime/debug"
 	"go/types"
 	"sort"
 	"strings"
@@ -187,6 +189,7 @@ type State struct {
 	defers  map[*Frame][]DeferredCall
 	lets    map[string]Val
 	loopLocks map[string]string
+	freshChans []string
 }
 
 func (s *State) clone() *State {
@@ -216,6 +219,7 @@ func (s *State) clone() *State {
 	}
 	n.lets = s.lets
 	n.loopLocks = s.loopLocks
+	n.freshChans = s.freshChans
 	return n
 }
 
@@ -281,6 +285,9 @@ func (e *Engine) setHeapArr(s *State, name, sortOf, newTerm string) {
 }
 
 func (e *Engine) havocHeapArr(s *State, name string) {
+	if dbg := os.Getenv("GOVC_DEBUG_HAVOC"); dbg != "" && strings.Contains(name, dbg) {
+		fmt.Fprintf(os.Stderr, "havoc %s\n%s\n", name, debug.Stack())
+	}
 	so, ok := e.heapSorts[name]
 	if !ok {
 		return
